@@ -116,7 +116,7 @@ FLOWS = [
     Flow("k_flow_response_unpack", "_rpc/_request.py", "Response._unpack", props=_F12),
     Flow("k_flow_request_pack", "_rpc/_request.py", "Request.pack", props=_F12),
     Flow("k_flow_request_unpack", "_rpc/_request.py", "Request._unpack", props=_F12),
-    # ---- _rpc/_bind.py (Proofs/Flow_rpc_bind.v) ------------------------------------------------
+    # ---- _rpc/_bind.py (Proofs/Flow_rpc_bind_{ctx,bind,ack}.v) ------------------------------------------------
     Flow("k_flow_syntaxid_pack", "_rpc/_bind.py", "SyntaxId.pack", props=_F12),
     Flow("k_flow_syntaxid_unpack", "_rpc/_bind.py", "SyntaxId.unpack", props=_F12),
     Flow("k_flow_contextelement_pack", "_rpc/_bind.py", "ContextElement.pack", props=_F12),
@@ -156,7 +156,7 @@ FLOWS = [
     Flow("k_flow_uuidfloor_unpack", "_epm.py", "UUIDFloor._unpack", props=_F1218),
     Flow("k_flow_eptmapresult_pack", "_epm.py", "EptMapResult.pack", props=_F1218),
     Flow("k_flow_eptmapresult_unpack", "_epm.py", "EptMapResult.unpack", props=_F1218),
-    # ---- _epm.py: the request (Proofs/Flow_rpc_eptmap.v: C12) ----------------------------------
+    # ---- _epm.py: the request (Proofs/Flow_rpc_eptmap_{unpack,pack}.v: C12) ----------------------------------
     Flow("k_flow_build_tcpip_tower", "_epm.py", "build_tcpip_tower", props=_F12),
     Flow("k_flow_eptmap_pack", "_epm.py", "EptMap.pack", props=_F12),
     Flow("k_flow_eptmap_unpack", "_epm.py", "EptMap.unpack", props=_F12),
